@@ -944,3 +944,17 @@ Proof.
   destruct B as [g' [Hg' [Hsl _]]]. exists g'. split; [exact Hg'|].
   unfold slots in Hsl. inversion Hsl as [[P Q R S T U]]. rewrite P, Q. exact Hslot.
 Qed.
+
+(* byte-counter events do not touch the server *)
+Lemma bytes_keep_state : forall fx cf ts n k, t_st (fst (fst (tstep fx cf ts (TBytes n k)))) = t_st ts /\ snd (tstep fx cf ts (TBytes n k)) = [].
+Proof.
+  intros. cbn [tstep]. destruct (find_sess n (st_sess (t_st ts))) as [x|]; [|split; reflexivity].
+  destruct (s_acc x && negb (s_gone x) && negb (s_closed x)); [|split; reflexivity].
+  destruct (s_kind x); split; reflexivity.
+Qed.
+Lemma att_bytes_keep_state : forall fx cf ts s i k,
+  t_st (fst (fst (tstep fx cf ts (TAttBytes s i k)))) = t_st ts /\ snd (tstep fx cf ts (TAttBytes s i k)) = [].
+Proof.
+  intros. cbn [tstep]. destruct (find_att s i (st_atts (t_st ts))) as [a|]; [|split; reflexivity].
+  destruct (a_state a); try (split; reflexivity). destruct (a_rtmp a); split; reflexivity.
+Qed.
